@@ -6,6 +6,7 @@ package gen
 
 import (
 	"encoding/hex"
+	"strings"
 
 	"pgregory.net/rapid"
 
@@ -177,8 +178,25 @@ func Options(t *rapid.T, label string, max int) Pairs {
 		if vocab && rapid.IntRange(0, 3).Draw(t, label+"-wk") > 0 {
 			k = []byte(rapid.SampledFrom(wellKnownKeys).Draw(t, label+"-wkk"))
 			v = []byte(rapid.SampledFrom(wellKnownVals).Draw(t, label+"-wkv"))
-			if rapid.IntRange(0, 5).Draw(t, label+"-wklong") == 0 {
+			switch rapid.IntRange(0, 8).Draw(t, label+"-wklong") {
+			case 0:
 				v = model.Fill(rapid.SampledFrom([]int{15, 16, 17, 31, 32, 33, 255}).Draw(t, label+"-wklen"), 9)
+			case 1:
+				// text forms routers publish: I2P-base64 of 15..18 / 31..34 bytes with and
+				// without padding, and strings over that alphabet of the lengths in between
+				raw := model.Fill(rapid.SampledFrom([]int{15, 16, 17, 18, 31, 32, 33, 34}).Draw(t, label+"-b64raw"), rapid.Uint64Range(1, 1<<20).Draw(t, label+"-b64seed"))
+				txt := model.Base64(raw)
+				switch rapid.IntRange(0, 2).Draw(t, label+"-b64form") {
+				case 1:
+					txt = strings.TrimRight(txt, "=")
+				case 2:
+					n := rapid.SampledFrom([]int{22, 23, 24, 25, 43, 44, 45}).Draw(t, label+"-b64len")
+					for len(txt) < n {
+						txt += txt
+					}
+					txt = strings.ReplaceAll(txt, "=", "A")[:n]
+				}
+				v = []byte(txt)
 			}
 		} else {
 			k = smallStr(t, label+"-k", 0)
